@@ -81,9 +81,17 @@ func c02Finite(k int) {
 	}
 	sch := c02Build(leaves, nest)
 	total := c02Remaining(leaves, 0, 0)
-	vCheck("S5.left.before.start", int64(sch.Left()) == total)
 	t0 := vNondetTime("t0")
-	sch.Start(t0)
+	if vNondetBool("lazy") {
+		// the engine never calls Start: the first Next() (or a Left() that has to look past an
+		// empty first part) starts the schedule "now"; the clock stands still at t0
+		vSetClock(vTimeNs(t0))
+		vFreezeClock()
+		vCheck("S5.left.before.lazy.start", int64(sch.Left()) == total)
+	} else {
+		vCheck("S5.left.before.start", int64(sch.Left()) == total)
+		sch.Start(t0)
+	}
 	st := vTimeNs(t0) // start of the current part
 	last := st
 	drawn := int64(0)
